@@ -173,6 +173,13 @@ class ClassTranslator:
     def translate(self, name):
         fn = self.methods[name]
         decs = [ast.unparse(d) for d in fn.decorator_list]
+        attr = name
+        if name.startswith('__') and not name.endswith('__'):
+            attr = '_%s%s' % (self.cls.__name__.lstrip('_'), name)
+        static = inspect.getattr_static(self.cls, attr, None)
+        bound = getattr(self.obj, attr, None)
+        if getattr(bound, '__func__', bound) is not getattr(static, '__func__', static):
+            raise Unsupported('shadowed on the instance by a %s' % type(bound).__name__)
         args = list(fn.args.args)
         if 'staticmethod' not in decs:
             if not args or args[0].arg != 'self':
